@@ -126,6 +126,8 @@ def cases_for(tier, s):
     pool.append({"b": "dispatch", "cell": "tetrahedron", "p": {"seed": [s, 12, 1], "nint": 6, "nforms": 2}})
     pool.append({"b": "packing", "cell": "triangle", "p": {"seed": [s, 12, 2], "ncoef": 6, "nconst": 3}})
     pool.append({"b": "expr_suite", "cell": "triangle", "cdeg": 2, "p": {"which": "rank1_vector"}})
+    for w_ in range(3):
+        pool.insert(2 + 3 * w_, {"b": "expr_two_meshes", "cell": ["triangle", "tetrahedron", "quadrilateral"][w_], "p": {"which": w_}})
     if tier == "quick":
         pool = pool[:26]
     others = [{"b": "stiff_nl", "cell": "tetrahedron"}, {"b": "dg_jump", "cell": "triangle"}]
